@@ -33,6 +33,10 @@ CONSTANTS MaxStreams,      \* advertised SETTINGS_MAX_CONCURRENT_STREAMS
           MaxRstLife,      \* h2_max_rst_stream_lifetime
           MaxRstAbusive,   \* h2_max_rst_stream_abusive_lifetime
           MaxRstEmitted,   \* h2_max_rst_stream_emitted_lifetime
+          MaxRstQueued,    \* MAX_PENDING_RST_STREAMS (hard-coded 200): lifetime cap on queued resets
+          MaxPingLife,     \* DEFAULT_MAX_PING_LIFETIME (hard-coded 10 000)
+          MaxSettingsLife, \* DEFAULT_MAX_SETTINGS_LIFETIME (hard-coded 10 000)
+          OddSids,         \* client stream ids of the universe ({1, 3, 5} in the model-checking configurations)
           MaxDepth,        \* bound on the number of peer/backend steps of a behaviour
           MaxValid,        \* generator: length of the valid prefix
           Deviations,      \* open known findings modelled as the code behaves
@@ -41,8 +45,8 @@ CONSTANTS MaxStreams,      \* advertised SETTINGS_MAX_CONCURRENT_STREAMS
 VARIABLES st, hist
 vars == <<st, hist>>
 
-OddSids == {1, 3, 5}
 Sid5    == {0, 1, 2, 3, 5}
+IsEven(x) == x # 0 /\ x % 2 = 0
 
 ---------------------------------------------------------------------------
 (* Reactions *)
@@ -121,7 +125,7 @@ BodyErr(f) ==
 ---------------------------------------------------------------------------
 (* State *)
 Counters == {"rst", "ping", "settings", "empty", "wu0", "cont", "glitch", "gmin",
-             "rstLife", "rstAb", "rstEm"}
+             "rstLife", "rstAb", "rstEm", "rstQ", "pingLife", "settingsLife"}
 ZeroCounters == [c \in Counters |-> 0]
 
 InitState == [cs |-> "preface",           \* preface | settingsWait | open | draining | closed
@@ -149,6 +153,7 @@ Bump(s, c) == [s EXCEPT !.fc[c] = @ + 1]
 WindowTripped(s) ==
   \/ s.fc.rst > MaxRst \/ s.fc.ping > MaxPing \/ s.fc.settings > MaxSettings
   \/ s.fc.empty > MaxEmpty \/ s.fc.cont > MaxCont \/ s.fc.wu0 > MaxWu0
+  \/ s.fc.pingLife > MaxPingLife \/ s.fc.settingsLife > MaxSettingsLife
 GlitchTripped(s) == s.fc.glitch > MaxGlitch
 Tripped(s) == WindowTripped(s) \/ GlitchTripped(s)
 
@@ -161,8 +166,9 @@ FloodRes(s) == GoAwayRes(s, "EYC", IF WindowTripped(s) THEN "flood" ELSE "glitch
 EmitRst(s, x, c, keep) ==
   IF x \in s.rsent
   THEN Res([s EXCEPT !.rsent = IF keep THEN @ ELSE @ \ {x}], Ignore, "-")
-  ELSE LET s1 == [Bump(s, "rstEm") EXCEPT !.rsent = IF keep THEN @ \cup {x} ELSE @]
-       IN IF s1.fc.rstEm > MaxRstEmitted THEN GoAwayRes(s1, "EYC", "flood") ELSE Res(s1, Rst(c), "-")
+  ELSE LET s1 == [Bump(Bump(s, "rstEm"), "rstQ") EXCEPT !.rsent = IF keep THEN @ \cup {x} ELSE @]
+       IN IF s1.fc.rstEm > MaxRstEmitted \/ s1.fc.rstQ >= MaxRstQueued
+          THEN GoAwayRes(s1, "EYC", "flood") ELSE Res(s1, Rst(c), "-")
 
 \* reset_stream + remove_dead_stream on a stream of the map
 ResetInMap(s, x, c) == EmitRst(SetSS(s, x, "rstUs"), x, c, FALSE)
@@ -199,7 +205,7 @@ HandleHeaders(s, f, new) ==
 HandlePriority(s, f) ==
   IF f.pay # "selfdep" THEN Res(s, Handle, "-")
   ELSE IF InMap(s, f.sid) THEN ResetInMap(s, f.sid, "PE")
-  ELSE IF f.sid > s.wm THEN GoAwayRes(s, "PE", "-")     \* idle look-ahead accepted, then rejected as invalid
+  ELSE IF f.sid > s.wm /\ f.sid <= s.wm + 64 THEN GoAwayRes(s, "PE", "-")     \* idle look-ahead accepted, then rejected as invalid
   ELSE Res(s, Ignore, "-")
 
 HandleRst(s, f) ==
@@ -212,7 +218,7 @@ HandleRst(s, f) ==
 
 HandleSettings(s, f) ==
   IF f.fl = "ACK" THEN Res(IF s.cs = "settingsWait" THEN [s EXCEPT !.cs = "open"] ELSE s, Handle, "-")
-  ELSE LET s1 == Bump(s, "settings")
+  ELSE LET s1 == Bump(Bump(s, "settings"), "settingsLife")
        IN IF Tripped(s1) THEN FloodRes(s1)
           ELSE CASE f.pay \in {"push2", "frame_small"} -> GoAwayRes(s1, "PE", "-")
                  [] f.pay = "win_big" -> GoAwayRes(s1, IF "WinBigCode" \in Deviations THEN "PE" ELSE "FCE", "-")
@@ -221,7 +227,7 @@ HandleSettings(s, f) ==
 
 HandlePing(s, f) ==
   IF f.fl = "ACK" THEN Res(s, Ignore, "-")
-  ELSE LET s1 == Bump(s, "ping") IN IF Tripped(s1) THEN FloodRes(s1) ELSE Res(s1, Handle, "-")
+  ELSE LET s1 == Bump(Bump(s, "ping"), "pingLife") IN IF Tripped(s1) THEN FloodRes(s1) ELSE Res(s1, Handle, "-")
 
 HandleGoaway(s, f) ==
   LET kept == IF f.pay = "lastmax" THEN s.ss
@@ -338,7 +344,7 @@ V(cls, c) == [cls |-> cls, c |-> c]
 OfViol(v) == IF v.cls = "conn" THEN {Goaway(v.c)} ELSE {Rst(v.c), Goaway(v.c)}
 
 \* effective state of a client stream id (5.1.1: a new id implicitly closes lower idle ids)
-Eff(s, x) == IF x = 2 THEN "even"
+Eff(s, x) == IF IsEven(x) \/ x \notin OddSids THEN "even"
              ELSE IF s.ss[x] = "idle" THEN (IF x < s.hi THEN "implicit" ELSE "idle") ELSE s.ss[x]
 
 SizeViol(f) ==
@@ -355,12 +361,12 @@ StreamAdm(s, f) ==
   IN CASE f.ty = "PRIORITY" ->
             IF f.pay = "selfdep" THEN {Handle, Ignore, Rst("PE"), Goaway("PE")} ELSE {Handle, Ignore}
        [] e = "even" ->
-            {Goaway("PE")} \cup (IF 2 <= s.hi
+            {Goaway("PE")} \cup (IF f.sid <= s.hi
                                  THEN CASE f.ty = "DATA" -> {Rst("SC"), Goaway("SC")}
                                         [] f.ty = "HEADERS" -> {Goaway("SC")}
                                         [] OTHER -> {Ignore}
                                  ELSE {})
-                         \cup (IF 2 \in s.rsent THEN {Ignore} ELSE {})     \* already reset by us
+                         \cup (IF f.sid \in s.rsent THEN {Ignore} ELSE {})     \* already reset by us
        [] e = "idle" /\ f.ty # "HEADERS" -> {Goaway("PE")}
        [] e = "idle" ->                                       \* new stream
             (IF s.cs = "draining" THEN {Rst("RS"), Handle} ELSE {})
@@ -430,7 +436,7 @@ RfcAdm(s, f) ==
            basic == (IF SidInvalid(f) \/ f.ty \in {"CONT", "PUSH"} THEN {Goaway("PE")} ELSE {})
                     \* a PUSH_PROMISE on a stream that is closed or half-closed (remote) also breaks the stream-state rule
                     \cup (IF f.ty = "PUSH" /\ f.sid # 0 /\ (Eff(s, f.sid) \in {"hcr", "closed", "rstPeer", "rstUs", "implicit"}
-                                                            \/ (f.sid = 2 /\ 2 <= s.hi))
+                                                            \/ (IsEven(f.sid) /\ f.sid <= s.hi))
                           THEN {Goaway("SC")} ELSE {})
            st8 == IF f.sid # 0 /\ f.ty \in {"DATA", "HEADERS", "PRIORITY", "RST", "WU"} /\ ~SidInvalid(f)
                   THEN StreamAdm(s, f)
@@ -472,16 +478,16 @@ DevOf(s, f) ==
   \cup (IF "ReuseRefusedId" \in Deviations /\ f.ty = "HEADERS" /\ f.sid \in OddSids /\ f.sid > s.wm /\ f.sid <= s.hi
         THEN {"ReuseRefusedId"} ELSE {})
 NoFrame == F("-", "-", 0, "-", "-")
-Rec(h) == IF Emit = "off" THEN hist ELSE Append(hist, h)
+HRec(h) == IF Emit = "off" THEN hist ELSE Append(hist, h)
 
 CanStep(s) == s.depth < MaxDepth /\ s.cs # "closed"
 
 \* client preface: "ok" = magic + SETTINGS; the others are not a valid connection start
 Peer_Preface(kind) ==
   /\ st.cs = "preface" /\ ~st.gs /\ CanStep(st)
-  /\ st' = IF kind = "ok" THEN [st EXCEPT !.cs = "settingsWait", !.depth = @ + 1, !.fc.settings = 1]  \* the preface SETTINGS counts
+  /\ st' = IF kind = "ok" THEN [st EXCEPT !.cs = "settingsWait", !.depth = @ + 1, !.fc.settings = 1, !.fc.settingsLife = 1]  \* the preface SETTINGS counts (per-window; sozu does not count it for the lifetime... it does: same handler)
                           ELSE [st EXCEPT !.gs = TRUE, !.depth = @ + 1]
-  /\ hist' = Rec(Step("preface", F("-", "-", 0, "-", kind),
+  /\ hist' = HRec(Step("preface", F("-", "-", 0, "-", kind),
                       IF kind = "ok" THEN Handle ELSE CloseR,
                       IF kind = "ok" THEN {Handle} ELSE {CloseR, Goaway("PE")}, FALSE, 0, {}, FALSE))
 PrefaceKinds == {"ok", "nomagic", "notsettings", "settings_ack"}
@@ -495,7 +501,7 @@ Peer_Frame(f) ==
         /\ st' = [c.s EXCEPT !.depth = @ + 1,
                              !.nvalid = IF st.nany = 0 /\ isValid /\ st.nvalid < MaxValid THEN @ + 1 ELSE @,
                              !.nany = IF st.nany = 0 /\ isValid /\ st.nvalid < MaxValid THEN @ ELSE @ + 1]
-        /\ hist' = Rec(Step("frame", f, c.r, React(st, f), BlockOpen(c.s), Fwd(st, c.s), DevOf(st, f), Trl(st, f)))
+        /\ hist' = HRec(Step("frame", f, c.r, React(st, f), BlockOpen(c.s), Fwd(st, c.s), DevOf(st, f), Trl(st, f)))
 
 \* the backend answers a complete request: response HEADERS + DATA(END_STREAM), stream closed
 Sozu_Respond(x) ==
@@ -506,7 +512,7 @@ Sozu_Respond(x) ==
          s2 == IF st.cs = "draining" /\ Active(s1) = 0 THEN [s1 EXCEPT !.gs = TRUE] ELSE s1
          r  == IF s2.gs THEN Goaway("NO") ELSE Handle
      IN /\ st' = [s2 EXCEPT !.depth = @ + 1, !.nvalid = IF Emit = "off" THEN @ ELSE @ + 1]
-        /\ hist' = Rec(Step("respond", F("-", "-", x, "-", "-"), r, {r}, FALSE, 0, {}, FALSE))
+        /\ hist' = HRec(Step("respond", F("-", "-", x, "-", "-"), r, {r}, FALSE, 0, {}, FALSE))
 
 \* after a GOAWAY (or a silent drop) the socket is released
 Sozu_Close ==
@@ -543,7 +549,7 @@ StreamStates == {"idle", "hdr", "open", "hcr", "closed", "rstPeer", "rstUs"}
 TypeOK == /\ st.cs \in {"preface", "settingsWait", "open", "draining", "closed"}
           /\ st.gs \in BOOLEAN /\ st.hpPeer \in BOOLEAN /\ st.hpSozu \in BOOLEAN
           /\ \A x \in OddSids : st.ss[x] \in StreamStates
-          /\ st.hi \in {0} \cup OddSids /\ st.ec \in {0} \cup OddSids /\ st.ecRef \in {0} \cup OddSids
+          /\ st.hi \in Nat /\ st.ec \in {0} \cup OddSids /\ st.ecRef \in {0} \cup OddSids
           /\ \A c \in Counters : st.fc[c] \in Nat
 
 \* every frame, in every state, yields a reaction of the relation
